@@ -130,6 +130,9 @@ class Run:
             "wall_s": round(time.time() - self.t0, 2),
             "violations": len(self.violations),
         }
+        if self.level == "translation_validation":
+            ev["coverage"]["programs"] = self.evaluations
+            ev["coverage"]["disagreements_checked"] = len(self.violations) + len(self.known_hits)
         ev["coverage"].update(self.extra)
         os.makedirs(EVID, exist_ok=True)
         json.dump(ev, open(os.path.join(EVID, self.prop + ".json"), "w"), indent=1)
